@@ -2046,6 +2046,8 @@ def run_hist(case):
             pass
     opsname = "+".join(names)
     m2, S2 = np.array(m2), np.array(S2)
+    if m2.size == 0:       # empty selections are outside the property's quantifier (never generated on purpose)
+        return [], (lambda replies: {"status": "excluded-empty", "fails": [], "broke": []})
     B2, n2 = m2.shape[:-1], m2.shape[-1]
     singular = sc == 0.0
     sd2 = np.sqrt(np.abs(np.diagonal(S2, axis1=-2, axis2=-1)))
@@ -2281,7 +2283,7 @@ def _warm_getitem_indices(batch, n, rng, deep):
     out = []
     if nb == 0:
         out += [(e,) for e in ev_sl + ev_li] + [(Ellipsis, e) for e in (ev_sl[2], ev_sl[4], ev_li[0])] + [(ev_sl[3], Ellipsis)]
-        return out
+        return out      # n >= 4: every form above is non-empty
     pres = list(itertools.product(*[bpre(s) for s in batch]))
     # at most one advanced index in the whole expression
     pres_basic = [p for p in pres if not any(isinstance(i, (list, tuple)) for i in p)]
@@ -2304,11 +2306,16 @@ def _warm_getitem_indices(batch, n, rng, deep):
         out.append((Ellipsis, e))
         if nb == 2 and (deep or j % 3 == 0):
             out.append((0, Ellipsis, e))
+    import torch
+    probe = torch.zeros(tuple(batch) + (n,))
     seen, uniq = set(), []
     for i in out:
         k = repr(idx_json(i))
-        if k not in seen:
-            seen.add(k)
+        if k in seen:
+            continue
+        seen.add(k)
+        sh = tuple(probe[idx_real(i)].shape)
+        if len(sh) >= 1 and 0 not in sh:       # the property quantifies over non-empty results with >= 1 dimension
             uniq.append(i)
     return uniq
 
